@@ -21,10 +21,12 @@ const (
 	kBadHeader
 	kIdentityKey
 	kIdentitySig
+	kPolyCancel // errors a_j*D with a_j = 1/prod_{k!=j}(p_j-p_k): cancel under every coefficient vector that is a polynomial of degree <= m-2 in the position (counter-derived, arithmetic progressions, ...)
+	kGeom2      // errors (2d, -d) / (d, -2d) on neighbouring invalid positions: cancel under coefficients that double from one index to the next
 	kKinds
 )
 
-var kindNames = []string{"bitflip", "swapped", "plus-minus-d", "three-way", "non-g1", "wrong-length", "bad-header", "identity-key", "identity-sig"}
+var kindNames = []string{"bitflip", "swapped", "plus-minus-d", "three-way", "non-g1", "wrong-length", "bad-header", "identity-key", "identity-sig", "poly-cancel", "geom2"}
 
 func genC03(c *Ctx) {
 	maxExh := 5
@@ -95,6 +97,46 @@ func genC03(c *Ctx) {
 				}
 				for _, i := range invalid[3:] {
 					sigs[i] = g(c.randScalar())
+				}
+			} else {
+				for _, i := range invalid {
+					sigs[i] = g(c.randScalar())
+				}
+			}
+		case kPolyCancel:
+			if len(invalid) >= 2 {
+				d := c.randScalar()
+				for j, pj := range invalid {
+					den := big.NewInt(1)
+					for k2, pk := range invalid {
+						if k2 != j {
+							den.Mul(den, new(big.Int).Mod(big.NewInt(int64(pj-pk)), blsR))
+							den.Mod(den, blsR)
+						}
+					}
+					aj := new(big.Int).Mul(d, new(big.Int).ModInverse(den, blsR))
+					sigs[pj] = g(new(big.Int).Mod(new(big.Int).Add(ks[pj], aj), blsR))
+				}
+			} else {
+				for _, i := range invalid {
+					sigs[i] = g(c.randScalar())
+				}
+			}
+		case kGeom2:
+			if len(invalid) >= 2 {
+				d := c.randScalar()
+				d2 := new(big.Int).Lsh(d, 1)
+				for j := 0; j+1 < len(invalid); j += 2 {
+					a, b := invalid[j], invalid[j+1]
+					ea, eb := d2, d
+					if (j/2+len(invalid))%2 == 1 {
+						ea, eb = d, d2
+					}
+					sigs[a] = g(new(big.Int).Mod(new(big.Int).Add(ks[a], ea), blsR))
+					sigs[b] = g(new(big.Int).Mod(new(big.Int).Sub(new(big.Int).Add(ks[b], new(big.Int).Lsh(blsR, 1)), eb), blsR))
+				}
+				if len(invalid)%2 == 1 {
+					sigs[invalid[len(invalid)-1]] = g(c.randScalar())
 				}
 			} else {
 				for _, i := range invalid {
@@ -192,9 +234,9 @@ func genC03(c *Ctx) {
 			}
 			kinds := []int{c.intn(kKinds)}
 			if n <= 4 || c.thorough() {
-				kinds = []int{kBitflip, kSwapped, kPlusMinusD, kThreeWay, kNonG1, kWrongLen, kBadHeader, kIdentityKey, kIdentitySig}
+				kinds = []int{kBitflip, kSwapped, kPlusMinusD, kThreeWay, kNonG1, kWrongLen, kBadHeader, kIdentityKey, kIdentitySig, kPolyCancel, kGeom2}
 			} else {
-				kinds = []int{kSwapped, kPlusMinusD, c.intn(kKinds)}
+				kinds = []int{kSwapped, kPlusMinusD, kPolyCancel, c.intn(kKinds)}
 			}
 			if len(invalid) == 0 {
 				kinds = []int{kBitflip}
@@ -213,7 +255,7 @@ func genC03(c *Ctx) {
 					invalid = append(invalid, i)
 				}
 			}
-			run(n, invalid, []int{kSwapped, kPlusMinusD, kThreeWay, c.intn(kKinds)}[rep%4])
+			run(n, invalid, []int{kSwapped, kPlusMinusD, kThreeWay, kPolyCancel, kGeom2, c.intn(kKinds)}[rep%6])
 		}
 	}
 	// input errors: every returned boolean is false
